@@ -72,3 +72,10 @@ Example C04_nonvacuous :
   | Fault _ => False
   end.
 Proof. vm_compute. split; reflexivity. Qed.
+
+(* T-gen tie: the session a SEID-0 report response is about is recognised by the peer's SEID and the COMPLETE address
+   (host and port) of its association - the comparison the model's lookup makes on peers *)
+From GoUpf Require LookupGen LookupShape.
+Theorem C04_seid0_lookup_source_shape : (LookupGen.remote_sess_conds, LookupGen.sendreq_body) = LookupShape.lookup_model_shape.
+Proof. exact LookupShape.lookup_shape_ok. Qed.
+Print Assumptions C04_seid0_lookup_source_shape.
